@@ -42,12 +42,14 @@ Qed.
 
 (** [resolve] through the dict operations *)
 Lemma imap_resolve : forall f l x l' i, resolve x l = (l', i) ->
-  (if negb (sd_mem x (imap f 0 l)) then sd_set (imap f 0 l) x (f (List.length l)) else imap f 0 l) = imap f 0 l'
-  /\ sd_get x (imap f 0 l') = Some (f i).
+  match sd_get x (imap f 0 l) with
+  | Some q => l' = l /\ q = f i
+  | None => imap f 0 l' = sd_set (imap f 0 l) x (f (List.length l)) /\ sd_get x (imap f 0 l') = Some (f i)
+  end.
 Proof.
-  intros f l x l' i H. unfold resolve in H. unfold d_mem. rewrite imap_get.
+  intros f l x l' i H. unfold resolve in H. rewrite imap_get.
   destruct (index_of x l) as [j|] eqn:E; inversion H; subst; simpl.
-  - split; [reflexivity|]. rewrite imap_get, E. reflexivity.
+  - split; reflexivity.
   - rewrite (imap_set_new f l 0 x _ E). split.
     + rewrite imap_app. simpl. reflexivity.
     + rewrite imap_get, (index_of_new _ _ E). reflexivity.
@@ -56,18 +58,25 @@ Qed.
 Definition lift {A} (r:option (scope * A)) : option (gscope * A) :=
   match r with Some (sc, a) => Some (absg sc, a) | None => None end.
 
+(** generic: after unfolding a generated scope method on [absg sc], decide the dict lookup and finish *)
+Ltac scope_method E H :=
+  cbv zeta; cbn [g_metavars g_sortparams set_metavars set_sortparams absg];
+  rewrite ?imap_len;
+  match type of H with
+  | match ?g with _ => _ end => destruct g as [q|] eqn:E
+  end.
+
 Lemma agree_resolve_metavar : forall sc x,
   gen_resolve_metavar (absg sc) x =
   (let '(l, i) := resolve x (sc_meta sc) in Some (absg (mkScope l (sc_sort sc)), PMeta (N.of_nat i))).
 Proof.
   intros sc x. destruct (resolve x (sc_meta sc)) as [l i] eqn:E.
-  destruct (imap_resolve fmeta _ _ _ _ E) as [H1 H2].
-  unfold gen_resolve_metavar, absg, set_metavars. cbn [g_metavars g_sortparams].
-  rewrite imap_len. change (PMeta (N.of_nat (List.length (sc_meta sc)))) with (fmeta (List.length (sc_meta sc))).
-  match goal with |- context [if ?c then ?a else ?b] =>
-    replace (if c then a else b) with (mkG (imap fmeta 0 l) (imap fsort 0 (sc_sort sc))) end.
-  - cbn [g_metavars]. rewrite H2. reflexivity.
-  - rewrite <- H1. destruct (negb _); reflexivity.
+  pose proof (imap_resolve fmeta _ _ _ _ E) as H.
+  unfold gen_resolve_metavar. cbv zeta. cbn [g_metavars g_sortparams set_metavars set_sortparams absg]. rewrite ?imap_len.
+  change (PMeta (N.of_nat (List.length (sc_meta sc)))) with (fmeta (List.length (sc_meta sc))).
+  destruct (sd_get x (imap fmeta 0 (sc_meta sc))) as [q|].
+  - destruct H as [-> ->]. reflexivity.
+  - destruct H as [H1 H2]. rewrite <- H1. cbn [g_metavars]. rewrite H2. reflexivity.
 Qed.
 
 Lemma agree_resolve_sort : forall sc a,
@@ -75,20 +84,19 @@ Lemma agree_resolve_sort : forall sc a,
   (let '(l, j) := resolve a (sc_sort sc) in Some (absg (mkScope (sc_meta sc) l), PMeta (SORT_PARAM_METAVAR + N.of_nat j))).
 Proof.
   intros sc x. destruct (resolve x (sc_sort sc)) as [l i] eqn:E.
-  destruct (imap_resolve fsort _ _ _ _ E) as [H1 H2].
-  unfold gen_resolve_sort_param_metavar, absg, set_sortparams, gen_SORT_PARAM_METAVAR. cbn [g_metavars g_sortparams].
-  rewrite imap_len.
+  pose proof (imap_resolve fsort _ _ _ _ E) as H.
+  unfold gen_resolve_sort_param_metavar, gen_SORT_PARAM_METAVAR. cbv zeta.
+  cbn [g_metavars g_sortparams set_metavars set_sortparams absg]. rewrite ?imap_len.
   change (PMeta (100 + N.of_nat (List.length (sc_sort sc)))) with (fsort (List.length (sc_sort sc))).
-  match goal with |- context [if ?c then ?a else ?b] =>
-    replace (if c then a else b) with (mkG (imap fmeta 0 (sc_meta sc)) (imap fsort 0 l)) end.
-  - cbn [g_sortparams]. rewrite H2. reflexivity.
-  - rewrite <- H1. destruct (negb _); reflexivity.
+  destruct (sd_get x (imap fsort 0 (sc_sort sc))) as [q|].
+  - destruct H as [-> ->]. reflexivity.
+  - destruct H as [H1 H2]. rewrite <- H1. cbn [g_sortparams]. rewrite H2. reflexivity.
 Qed.
 
 Lemma agree_lookup_metavar : forall sc x,
   gen_lookup_metavar (absg sc) x = option_map (fun i => (absg sc, PMeta i)) (meta_id sc x).
 Proof.
-  intros sc x. unfold gen_lookup_metavar, meta_id, absg, d_mem. cbn [g_metavars]. rewrite imap_get.
+  intros sc x. unfold gen_lookup_metavar, meta_id, absg. cbv [d_mem]. cbn [g_metavars]. rewrite ?imap_get.
   destruct (index_of x (sc_meta sc)); reflexivity.
 Qed.
 
@@ -242,30 +250,50 @@ Definition tk_subst (t:list (string * gkore)) : list (string * kore) := map (fun
 (** what [substitutions[name] = ...] builds from the pairs the model lists *)
 Definition dict_of (d:list (N * kpat)) : list (N * kpat) := fold_left (fun acc ip => nd_set acc (fst ip) (snd ip)) d [].
 
-Lemma agree_subst_fold : forall S fuel t,
-  Forall (fun xk => gheight (snd xk) <= fuel /\ gk_typed (snd xk) = true) t ->
-  forall sc acc,
-  st_fold (fun '(v_scope, v_substitutions) '(v_var_name, v_kore_pattern) =>
-             match gen_lookup_metavar v_scope v_var_name with
-             | None => None
-             | Some (v_scope, t1) =>
-                 match gen__convert_pattern fuel S v_scope v_kore_pattern with
-                 | None => None
-                 | Some (v_scope, t2) => Some (v_scope, nd_set v_substitutions (metavar_name t1) t2)
-                 end
-             end) (absg sc, acc) t
-  = match convert_substs (gs_sig S) sc (tk_subst t) with
-    | Some (sc', d) => Some (absg sc', fold_left (fun acc ip => nd_set acc (fst ip) (snd ip)) d acc)
+(** generic facts about loops: pointwise-equal bodies, and simulation of a generated loop by a model loop *)
+Lemma st_fold_ext : forall {St A} (f g:St -> A -> option St), (forall s a, f s a = g s a) ->
+  forall l s, st_fold f s l = st_fold g s l.
+Proof.
+  intros St A f g H. induction l as [|a t IH]; intros s; simpl; [reflexivity|].
+  rewrite H. destruct (g s a); [apply IH | reflexivity].
+Qed.
+
+Definition sim_opt {X Y} (R:X -> Y -> Prop) (a:option X) (b:option Y) : Prop :=
+  match a with Some x => exists y, b = Some y /\ R x y | None => b = None end.
+
+Lemma st_fold_sim : forall {St St' A} (R:St -> St' -> Prop) (P:A -> Prop) (f:St -> A -> option St) (g:St' -> A -> option St'),
+  (forall s s' a, P a -> R s s' -> sim_opt R (f s a) (g s' a)) ->
+  forall l s s', Forall P l -> R s s' -> sim_opt R (st_fold f s l) (st_fold g s' l).
+Proof.
+  intros St St' A R P f g H. induction l as [|a t IH]; intros s s' HF HR; simpl.
+  - exists s'. split; [reflexivity | exact HR].
+  - inversion HF as [|? ? Ha Ht]; subst. specialize (H s s' a Ha HR). unfold sim_opt in H.
+    destruct (f s a) as [x|].
+    + destruct H as [y [E Rxy]]. rewrite E. apply IH; assumption.
+    + rewrite H. reflexivity.
+Qed.
+
+(** the loop of [convert_substitutions] on the model side *)
+Definition model_subst_step (S:sig) (st:scope * list (N * kpat)) (xk:string * gkore) : option (scope * list (N * kpat)) :=
+  match meta_id (fst st) (fst xk) with
+  | None => None
+  | Some i => match convert S (fst st) (to_kore (snd xk)) with
+              | None => None
+              | Some (sc1, p) => Some (sc1, nd_set (snd st) i p)
+              end
+  end.
+
+Lemma model_subst_fold : forall S t sc acc,
+  st_fold (model_subst_step S) (sc, acc) t
+  = match convert_substs S sc (tk_subst t) with
+    | Some (sc', d) => Some (sc', fold_left (fun acc ip => nd_set acc (fst ip) (snd ip)) d acc)
     | None => None
     end.
 Proof.
-  intros S fuel. induction t as [|[x k] r IH]; intros HF sc acc; simpl; [reflexivity|].
-  inversion HF as [|? ? [H1 H2] HF']; subst. simpl in H1, H2.
-  rewrite agree_lookup_metavar. destruct (meta_id sc x) as [i|]; simpl; [|reflexivity].
-  rewrite (agree_convert_pattern S fuel k H1 H2 sc).
-  destruct (convert (gs_sig S) sc (to_kore k)) as [[sc1 p]|]; simpl; [|reflexivity].
-  rewrite (IH HF' sc1). fold (tk_subst r).
-  destruct (convert_substs (gs_sig S) sc1 (tk_subst r)) as [[sc2 d]|]; reflexivity.
+  intros S. induction t as [|[x k] r IH]; intros sc acc; simpl; [reflexivity|].
+  unfold model_subst_step at 1. simpl. destruct (meta_id sc x) as [i|]; [|reflexivity].
+  destruct (convert S sc (to_kore k)) as [[sc1 p]|]; [|reflexivity].
+  rewrite IH. fold (tk_subst r). destruct (convert_substs S sc1 (tk_subst r)) as [[sc2 d]|]; reflexivity.
 Qed.
 
 Theorem agree_convert_substitutions : forall S fuel t o sc,
@@ -278,8 +306,23 @@ Theorem agree_convert_substitutions : forall S fuel t o sc,
     end.
 Proof.
   intros S fuel t o sc Hc HF. unfold gen_convert_substitutions. cbv zeta. rewrite Hc.
-  rewrite (agree_subst_fold S fuel t HF sc []).
-  destruct (convert_substs (gs_sig S) sc (tk_subst t)) as [[sc' d]|]; reflexivity.
+  match goal with |- context [st_fold ?f ?s0 t] =>
+    pose proof (st_fold_sim (fun (a:gscope * list (N * kpat)) (b:scope * list (N * kpat)) => fst a = absg (fst b) /\ snd a = snd b)
+                  (fun xk => gheight (snd xk) <= fuel /\ gk_typed (snd xk) = true) f (model_subst_step (gs_sig S))) as SIM;
+    specialize (fun H => SIM H t s0 (sc, []) HF (conj eq_refl eq_refl))
+  end.
+  match type of SIM with ?A -> _ => assert (STEP : A) end.
+  { intros [gs acc] [sc0 acc0] [x k] [Hh Ht] [E1 E2]. simpl in E1, E2, Hh, Ht. subst gs acc.
+    unfold model_subst_step. cbn [fst snd]. cbv beta iota zeta.
+    rewrite agree_lookup_metavar. destruct (meta_id sc0 x) as [i|]; cbn [option_map sim_opt]; [|reflexivity].
+    cbv beta iota. rewrite (agree_convert_pattern S fuel k Hh Ht sc0).
+    destruct (convert (gs_sig S) sc0 (to_kore k)) as [[sc1 p]|]; cbn [lift sim_opt metavar_name]; [|reflexivity].
+    eexists. split; [reflexivity|]. split; reflexivity. }
+  specialize (SIM STEP). rewrite model_subst_fold in SIM. unfold sim_opt in SIM.
+  match goal with |- context [st_fold ?f ?s0 t] => destruct (st_fold f s0 t) as [[g2 d2]|] end.
+  - destruct SIM as [[sc2 dm] [E [R1 R2]]]. simpl in R1, R2. subst.
+    destruct (convert_substs (gs_sig S) sc (tk_subst t)) as [[sc' d]|]; [|discriminate]. inversion E; subst. reflexivity.
+  - destruct (convert_substs (gs_sig S) sc (tk_subst t)) as [[sc' d]|]; [discriminate | reflexivity].
 Qed.
 
 (** a Python dict never holds a key twice: with distinct keys [dict_of] is the identity *)
